@@ -26,6 +26,8 @@ type modStream struct {
 	sent     []*spb.ModifyResponse
 	sendErr  error // when set, Send fails
 	slow     time.Duration // every Send takes that long (a client that drains its stream slowly)
+	block    chan struct{} // when set, Send waits for it to be closed (a client that has stopped reading: flow control)
+	entered  int           // Sends that have been entered
 	closeErr error // what Recv returns once in is closed
 	closed   bool
 }
@@ -52,7 +54,12 @@ func (m *modStream) Recv() (*spb.ModifyRequest, error) {
 func (m *modStream) Send(r *spb.ModifyResponse) error {
 	m.mu.Lock()
 	d := m.slow
+	blk := m.block
+	m.entered++
 	m.mu.Unlock()
+	if blk != nil {
+		<-blk
+	}
 	if d > 0 {
 		time.Sleep(d)
 	}
@@ -161,6 +168,27 @@ func (m *modStream) FailSends(err error) {
 	m.mu.Lock()
 	m.sendErr = err
 	m.mu.Unlock()
+}
+
+// BlockSends makes every further Send of the stream wait until the returned function is called.
+func (m *modStream) BlockSends() (unblock func()) {
+	ch := make(chan struct{})
+	m.mu.Lock()
+	m.block = ch
+	m.mu.Unlock()
+	return func() {
+		m.mu.Lock()
+		m.block = nil
+		m.mu.Unlock()
+		close(ch)
+	}
+}
+
+// SendsEntered is the number of Send calls entered so far (completed or not).
+func (m *modStream) SendsEntered() int {
+	m.mu.Lock()
+	defer m.mu.Unlock()
+	return m.entered
 }
 
 // SlowSends makes every further Send of the stream take d.
